@@ -27,6 +27,7 @@ func main() {
 		n = 3000
 	}
 	rng := wh.NewRng(a.Seed)
+	gc.EmitProd = true // registry + subscription streams together against the composition M_prod
 	emit := func(sc gc.Scenario) bool {
 		out.Begin(sc.Describe())
 		res := gc.Run(sc)
